@@ -2,6 +2,7 @@
 # usage: tools/try_patch.sh <patch.diff> <ID> [<ID>...]   (env TIER=quick|thorough)
 # Applies the patch to a scratch copy of /repo, runs the checks against the
 # copy (VERIF_REPO), prints one line per check, removes the copy.
+# KEEP_REPLAY=<name> stores the failing input as regress/<ID>/<name>.json.
 set -u
 patch=$(realpath "$1"); shift
 tier=${TIER:-quick}
@@ -18,6 +19,11 @@ cd "$(dirname "$0")/.."
 for id in "$@"; do
   out=$(VERIF_REPO="$dir" ./check "$id" "$tier" 2>&1); rc=$?
   sig=$(echo "$out" | grep -m1 "sig=" | sed 's/^ *//')
+  # KEEP_REPLAY=<name>: keep the (shrunk) failing input as a regression file.
+  if [ $rc -eq 1 ] && [ -n "${KEEP_REPLAY:-}" ]; then
+    rp=$(echo "$out" | grep -m1 '^VIOLATION' | sed 's/.*replay=//')
+    if [ -f "$rp" ]; then mkdir -p "regress/$id"; cp "$rp" "regress/$id/$KEEP_REPLAY.json"; fi
+  fi
   case $rc in
     1) echo "CAUGHT  $id rc=1 $(basename $(dirname $patch))/$(basename $patch) :: $sig";;
     0) echo "MISSED  $id rc=0 $(basename $(dirname $patch))/$(basename $patch)";;
